@@ -14,6 +14,21 @@ from . import common as C
 
 INST = os.path.join(C.BUILD, "inst")
 
+PRIMARY = {"C19": "queue", "C10": "breaker"}     # properties served by several drivers: the one that owns build/run/<id>
+PKG_OF = {"queue": "queue", "adder": "adder", "breaker": "circuit-breaker", "pool": "worker-pool"}
+
+def load_corpus(driver):
+    """the committed coverage corpus of a driver: scenarios (with their exploration modes) that together execute every
+    reachable block of the package; run - and replayed on the model - by every check that uses the driver"""
+    p = os.path.join(C.ROOT, "corpus", driver + ".jsonl")
+    out = []
+    if os.path.exists(p):
+        for l in open(p):
+            if l.strip():
+                d = json.loads(l)
+                out.append(Scn("cv_" + d["id"], d["kind"], d["prefill"], d["threads"], d["mode"], d.get("opts") or {}))
+    return out
+
 def build_inst():
     rc, out = C.sh(["python3", os.path.join(C.ROOT, "tools", "mkinst.py"), INST], timeout=600)
     return rc == 0, out
@@ -34,7 +49,9 @@ def build_driver(name, fine=False):
             vet = "\n".join(l for l in out.splitlines() if "possible misuse of unsafe.Pointer" in l)
             if vet:
                 return False, exe, "go vet -unsafeptr reports on the current sources (the model assumes GC-visible pointers):\n" + vet
-            rc, out = C.sh(["go", "build", "-o", exe, "./vdrv_" + name], cwd=INST, env=C.GOENV, timeout=1200)
+            # coverage instrumentation of the package under test: which blocks the validated runs executed (vcheck/cover.py)
+            rc, out = C.sh(["go", "build", "-cover", "-covermode=set", "-coverpkg=./%s/...,./vdrv_%s" % (PKG_OF[name], name), "-o", exe, "./vdrv_" + name],
+                           cwd=INST, env=C.GOENV, timeout=1200)
             return rc == 0, exe, out
         fg = os.path.join(C.BUILD, "bin", "finegrain")
         src = os.path.join(C.ROOT, "tools", "finegrain")
@@ -76,7 +93,11 @@ def rng_for(prop, seed, salt=""):
 def run_scenarios(driver_exe, replayer_exe, scns, workdir, timeout=3000, shards=16):
     """returns dict(runs, mismatches[list], viols[list], aborts[list], per[sid] = (runs, mism, exhaustive))"""
     os.makedirs(workdir, exist_ok=True)
-    res = {"runs": 0, "mismatches": [], "viols": [], "aborts": [], "per": {}, "errors": []}
+    covdir = os.path.join(workdir, "cov")
+    import shutil
+    shutil.rmtree(covdir, ignore_errors=True)
+    os.makedirs(covdir)
+    res = {"runs": 0, "mismatches": [], "viols": [], "aborts": [], "per": {}, "errors": [], "covdir": covdir}
     # shard the scenarios over parallel driver|replayer pipelines
     shards = max(1, min(shards, len(scns)))
     procs = []
@@ -87,7 +108,9 @@ def run_scenarios(driver_exe, replayer_exe, scns, workdir, timeout=3000, shards=
         outp = os.path.join(workdir, "res%d.txt" % k)
         open(inp, "w").write("".join(s.text() for s in part))
         cmd = "%s < %s | %s > %s" % (driver_exe, inp, replayer_exe, outp)
-        procs.append((subprocess.Popen(["bash", "-c", "set -o pipefail; ulimit -v 8000000; " + cmd], stderr=subprocess.PIPE, text=True), outp))
+        procs.append((subprocess.Popen(["bash", "-c", "set -o pipefail; ulimit -v 8000000; " + cmd], stderr=subprocess.PIPE, text=True,
+                                       # GOMAXPROCS differs from the CPU count on purpose: nothing may depend on it
+                                       env=dict(os.environ, GOCOVERDIR=covdir, GOMAXPROCS=str((os.cpu_count() or 1) + 1))), outp))
     for p, outp in procs:
         try:
             _, err = p.communicate(timeout=timeout)
@@ -149,10 +172,17 @@ def make_corr(prop, driver, gen, relevant=None, what_model="", discipline=None, 
             res["build_error"] = "go build of the instrumented copy of /repo failed:\n" + out
             return res
         rng = rng_for(prop, seed)
-        scns = gen(tier, rng)
+        corpus = load_corpus(driver)
+        scns = corpus + gen(tier, rng)
         byid = {s.sid: s for s in scns}
-        wd = os.path.join(C.BUILD, "run", prop)
+        wd = os.path.join(C.BUILD, "run", prop + ("" if PRIMARY.get(prop, driver) == driver else "_" + driver))
         r = run_scenarios(dexe, rexe, scns, wd)
+        # which blocks of the files this property is anchored in did the validated runs execute?
+        from . import cover
+        scope = {f for f in cover.anchors(prop) if f.startswith(PKG_OF[driver] + "/")}
+        unex, cstats, cerr = cover.unexercised(r["covdir"], INST, scope)
+        if cerr:
+            r["errors"].append(cerr)
         if fine_gen:
             ok, fexe, out = build_driver(driver, fine=True)
             if not ok:
@@ -178,6 +208,9 @@ def make_corr(prop, driver, gen, relevant=None, what_model="", discipline=None, 
                 viols.append(item)
             else:
                 mism.append(dict(item, kind="monitor verdict outside this property: " + v["what"]))
+        for u in unex:
+            mism.append({"kind": "code not executed by any model-validated run (the correspondence does not cover it)", "where": "%s: %s (lines %s of the instrumented copy)" % (u["file"], u["func"], u["lines"]),
+                         "text": u["text"], "driver": driver})
         for m in r["mismatches"]:
             s = byid.get(m["scenario"])
             mism.append({"kind": "model/implementation " + m["kind"] + " mismatch", "impl": m.get("impl"), "model": m.get("model"), "detail": m.get("detail", ""),
@@ -200,6 +233,7 @@ def make_corr(prop, driver, gen, relevant=None, what_model="", discipline=None, 
                           "ops_histogram": op_histogram(scns), "threads_histogram": hist(len(s.threads) for s in scns),
                           "modes": hist(s.mode.split()[0] for s in scns), "kinds": hist(s.kind for s in scns)})
         res["stats"]["model_pc_coverage"] = pc_coverage(r.get("cov"))
+        res["stats"]["impl_block_coverage"] = dict(cstats, corpus_scenarios=len(corpus))
         if fine_gen:
             res["stats"]["statement_level_schedules_monitored"] = r.get("fine_runs", 0)
             res["evaluations"] += r.get("fine_runs", 0)
